@@ -20,7 +20,10 @@ LEVEL_TEXT = ("Coq theorems over a Gallina model of every argument validator and
               "every name accepted by browse / resolve_hostname / register (full name, type, subtype, host) splits, under "
               "the encoder's own label split (Model/WireOut.v, shared with C02), into labels of 1..63 bytes, so "
               "write_utf8's assertion cannot fire on it; any number of conflict renames (split_first_label / "
-              "label_with_suffix modelled exactly) keeps a name encodable; every name that passes read_name's fit test "
+              "label_with_suffix modelled exactly) keeps a name encodable; since 4c6b25c the argument checks also test "
+              "the lower-cased spelling (the daemon's map keys): str::to_lowercase is an explicit function argument "
+              "`lc` of the model, every theorem holds for every `lc`, and accepted names are encodable as given AND "
+              "as `lc name`; every name that passes read_name's fit test "
               "re-encodes without panic. The model is tied to the Rust on every run "
               "by regenerated guards (Gen/ParamsSafety.v), a differential run of every validator on generated strings, "
               "and simulated-daemon histories whose outcome (call results, daemon alive and serving) is monitored")
@@ -39,7 +42,10 @@ RULE = ("strings: empty, long (to 5000 bytes; 20000 in the thorough tier), label
         "structured responses/queries aimed at the active searches and the registration with hostile labels, "
         "C01's wild and mutated packets; family probe-conflict: a service being probed receives peer probe queries "
         "(ANY question for its instance / host name, authority lists empty / strict prefix / equal / extended / "
-        "different, built from its own records, IPv4 and IPv4+IPv6, with and without TXT data)), 2-4 s of "
+        "different, built from its own records, IPv4 and IPv4+IPv6, with and without TXT data); family "
+        "lowercase-growth: resolve_hostname / browse / verify / register / subtype with labels of U+0130, U+023A, "
+        "U+023E (2 bytes, lower-cased 3) whose lower-cased length is 62, 63, 64, 90 (given <= 63), answers with TTL "
+        "2-5 s, 9 s of virtual time for the 80 % refresh and the retransmissions; backslash chains of 3-7 labels), 2-9 s of "
         "timer-exact virtual time, final status + fresh browse. "
         "non-trivial = not SKIP; distinct = distinct case lines")
 TRUSTED = [
@@ -49,9 +55,13 @@ TRUSTED = [
     "tools/extract_params.py: guards of check_service_name_length, check_hostname, name_labels_fit, write_utf8, "
     "set_service_name_len_max, valid_instance_name and the channel bound -> Gen/ParamsSafety.v, pinned in Proofs/SafetyNamesProofs.v",
     "hooks: verif-hooks facade (field copying) and the simulated world of DESIGN.md section 4",
+    "str::to_lowercase (Unicode case mapping of the Rust std library) is NOT modelled: the harness (`simh`) "
+    "computes the lower-cased spelling of every name the argument checks look at and hands the table to the "
+    "model as the oracle `lc` (names not in the table are folded on ASCII); that the daemon really uses "
+    "to_lowercase for its map keys is read from the source, not proved",
     "modelled, not verified: str::find/rfind/split/ends_with/strip_suffix/rsplit_once as byte-list functions; "
     "u32::from_str (optional '+', decimal digits, overflow -> Err); String::truncate and &s[a..b] panic exactly off "
-    "char boundaries / out of range; to_lowercase as the identity on non-ASCII",
+    "char boundaries / out of range",
     "the encoder's label split is WireOut.name_labels (model of parse_escaped_name after strip_suffix('.')), the same "
     "definition C02's round-trip theorem is about",
 ]
@@ -59,7 +69,9 @@ PARTIAL = ("Proved: panic-freedom of the validators/renaming functions and encod
            "panic-freedom of the whole daemon iteration (handle_response, handle_query, probing, cache): the daemon-level "
            "part of the statement is covered by the K6 monitor only (hostile packets and calls, then status + fresh "
            "browse), together with C01's decode_total for the decoder. AsIpAddrs (std::net parsers), TXT size checks "
-           "(C16) and non-ASCII case mapping (to_lowercase may lengthen a label) are outside the model; "
+           "(C16) are outside the model; Unicode case mapping is an oracle input (`lc`), so the theorems say nothing "
+           "about WHICH lower-cased spelling the daemon computes, only that whatever spelling passed the check is "
+           "encodable; that no other derived spelling is ever encoded is covered by the K6 family lowercase-growth only; "
            "set_multicast_loop_* unwraps depend on the OS. The name reader itself is Model/Wire.v (C01); here only its "
            "final fit test is modelled (read_name_fit).")
 
@@ -220,7 +232,7 @@ def labs(*ls):
 
 GOOD_LABS = labs("_good", "_tcp", "local")
 
-HOSTILE_LABELS = [b"a\\", b"a" * 40 + b"\\", b"b" * 40, b"a" * 62 + b"\\", b"x" * 63, b"a.b.c", b".", b"\\", b"\\\\",
+HOSTILE_LABELS = [b"a\\", b"a" * 40 + b"\\", b"b" * 40, b"c" * 29 + b"\\", b"d" * 29 + b"\\", b"e" * 20 + b"\\", b"a" * 62 + b"\\", b"x" * 63, b"a.b.c", b".", b"\\", b"\\\\",
                   b"\\.", b"a\\.b", "é".encode() * 31 + b"a", b"_good", b"local", b"inst", b"Inst", b"(2)", b"inst (2)",
                   b"a" * 60, b"goodhost", b"look", b"LOOK", b"\xff\xfe", b" ", b"a b"]
 
@@ -228,7 +240,7 @@ HOSTILE_LABELS = [b"a\\", b"a" * 40 + b"\\", b"b" * 40, b"a" * 62 + b"\\", b"x" 
 def hostile_response(rng):
     """a response aimed at the active browse / resolver / registration with hostile labels"""
     p = Packet(compress=rng.random() < 0.7)
-    n_inst = rng.choice([1, 1, 2, 3])
+    n_inst = rng.choice([1, 1, 2, 3, 4])
     inst = [rng.choice(HOSTILE_LABELS) for _ in range(n_inst)] + GOOD_LABS
     host = [rng.choice(HOSTILE_LABELS) for _ in range(rng.choice([1, 1, 2]))] + [b"local"]
     for _ in range(rng.choice([1, 2, 3, 5])):
@@ -511,7 +523,13 @@ def fixed_histories():
     hs.append(Case(rename_history("rename-paren-max", "a (4294967295)"), "rename"))
     hs.append(Case(rename_history("rename-host-max", "inst", "h-4294967295.local.", "addr"), "rename"))
     for k, al in enumerate([[b"a\\", b"b"], [b"a" * 40 + b"\\", b"b" * 40], [b"a" * 62 + b"\\", b"b"], [b"a.b.c"], [b"abc\\"],
-                            [b"a" * 31 + b"\\", b"b" * 31], [b"a" * 31 + b"\\", b"b" * 32], [b"x" * 63], [b"\\" * 63, b"\\" * 63]]):
+                            [b"a" * 31 + b"\\", b"b" * 31], [b"a" * 31 + b"\\", b"b" * 32], [b"x" * 63], [b"\\" * 63, b"\\" * 63],
+                            # chains: every adjacent pair fits into 63 bytes, the whole chain does not
+                            [b"a" * 29 + b"\\", b"b" * 29 + b"\\", b"c" * 30],
+                            [b"a" * 20 + b"\\", b"b" * 20 + b"\\", b"c" * 20 + b"\\", b"d" * 20],
+                            [b"a" * 20 + b"\\", b"b" * 20 + b"\\", b"c" * 19],
+                            [b"a" * 9 + b"\\"] * 6 + [b"z" * 9],
+                            [b"a" * 30 + b"\\\\\\", b"b" * 29 + b"\\", b"c" * 30]]):
         hs.append(Case(reencode_history("reenc-ptr-%d" % k, al, "ptr"), "reencode"))
         hs.append(Case(reencode_history("reenc-srv-%d" % k, al, "srv"), "reencode"))
     # repaired defects stay under observation
